@@ -110,13 +110,12 @@ def known_window_finding(start, end):
     return start < end and Model.slot_of(start) == Model.slot_of(end)
 
 
-def check_windows(rb, m, offsets, known):
+def check_windows(rb, m, offsets, known, FILL=-777.0):
     """Datetime window queries over the covered range (aligned and unaligned)."""
     valid = m.valid_slots()
     if not valid:
         return None
     lo_slot, hi_slot = valid[0], m.newest
-    FILL = -777.0
     slots = range(lo_slot - 1, hi_slot + 3)
     for a, b in itertools.product(slots, slots):
         for oa, ob in offsets:
@@ -194,7 +193,13 @@ def run_history(cap, container, hist, window_offsets, known, roundtrip_at=None):
         f = check_state(rb, m, hist)
         if f:
             return f"after update #{step}: {f}"
-    return check_windows(rb, m, window_offsets, known)
+    f = check_windows(rb, m, window_offsets, known)
+    if f is None:
+        # a fill value of (plain) zero is a fill value like any other
+        f = check_windows(rb, m, window_offsets[:1], known, FILL=0.0)
+        if f:
+            f = "(fill_value=0.0) " + f
+    return f
 
 
 def run(req):
@@ -228,6 +233,15 @@ def run(req):
                     if len(samples) < 2 and n == L:
                         samples.append({"capacity": cap, "container": container,
                                         "history": [[s, o, str(v)] for s, o, v in hist]})
+    # a buffer dumped while still EMPTY and loaded again is an empty buffer: it accepts its first update like a new one
+    for cap, container in itertools.product((1, 3), ("list", "numpy")):
+        hist = [(2, offsets[0], 1.0), (3, offsets[0], 2.0), (1, offsets[0], 3.0)]
+        evaluations += 1
+        distinct.add((cap, container, tuple(hist), 0))
+        f = run_history(cap, container, hist, win_offsets[:3], known, roundtrip_at=0)
+        if f:
+            return result(False, "(with a dump/load round trip before update #0) " + f, cap, container, hist, evaluations,
+                          distinct, known, samples, t0, exhaustive=False)
     # seeded random longer histories
     rng = random.Random(seed)
     while time.time() - t0 < budget:
@@ -241,7 +255,7 @@ def run(req):
             hist.append((max(0, base), rng.choice(offsets), rng.choice(values + [2.5, -3.0])))
         evaluations += 1
         # every third history: the buffer is dumped to disk and loaded again somewhere in the middle
-        rt = rng.randrange(1, n) if (evaluations % 3 == 0 and n > 1) else None
+        rt = rng.randrange(0, n) if (evaluations % 3 == 0 and n > 1) else None
         distinct.add((cap, container, tuple(hist), rt))
         f = run_history(cap, container, hist, win_offsets, known, roundtrip_at=rt)
         if f:
